@@ -577,14 +577,23 @@ def kindOf (ty : String) : Kind :=
     | '[' :: ']' :: rest => if structNames.contains (String.ofList rest) then .subs (String.ofList rest) else .unknown
     | _ => .unknown
 
+/-- value range of a Go integer type (strconv.ParseInt / ParseUint + reflect OverflowInt / OverflowUint in
+    encoding/json `literalStore`); `int` is 64 bit on every platform frp is released for that the check runs on -/
+def loOf (ty : String) : Int := if ty = "uint16" then 0 else -9223372036854775808
+def hiOf (ty : String) : Int := if ty = "uint16" then 65535 else 9223372036854775807
+
 /-- the regenerated table as a schema keyed by JSON name (what encoding/json uses) -/
 def schema : Schema :=
-  ⟨MsgSchema.structs.map (fun r => (r.1, r.2.map (fun f => ⟨f.1, Str.ofString f.2.1, f.2.2.2, kindOf f.2.2.1⟩)))⟩
+  ⟨MsgSchema.structs.map (fun r => (r.1, r.2.map (fun f =>
+    { goName := f.1, json := Str.ofString f.2.1, omitE := f.2.2.2, kind := kindOf f.2.2.1,
+      lo := loOf f.2.2.1, hi := hiOf f.2.2.1 })))⟩
 
 /-- the same table keyed by Go field name (used by the driver to read the harness's reflection dump
     of a Go value; not part of any theorem) -/
 def schemaGo : Schema :=
-  ⟨MsgSchema.structs.map (fun r => (r.1, r.2.map (fun f => ⟨f.1, Str.ofString f.1, f.2.2.2, kindOf f.2.2.1⟩)))⟩
+  ⟨MsgSchema.structs.map (fun r => (r.1, r.2.map (fun f =>
+    { goName := f.1, json := Str.ofString f.1, omitE := f.2.2.2, kind := kindOf f.2.2.1,
+      lo := loOf f.2.2.1, hi := hiOf f.2.2.1 })))⟩
 
 def hasSub (f : FieldS) : Option String :=
   match f.kind with
